@@ -35,6 +35,17 @@ Shapes beyond the plain ones (all inside the guard `WellFormedWs` of the theorem
   such a line are expected to resolve as the chain's next members (`continuation`), and a position
   between the dot and that name is a position after the dot.
 
+* a name may be declared TWICE in one scope (w-scope4): a method announced by `proc X(...) forward` (once or twice) and defined
+  further down in the same class or module, a method an ancestor only announces and a descendant defines, a field / constant
+  declared twice, a local declared twice, a local named like a parameter — also in another letter case and (fields, locals)
+  with another type.  The table of a scope holds a name once, its LATEST declaration: that one is the target of
+  go-to-definition (one link per class of the chain), its spelling is the label, the name is offered once;
+* `const` / `type` / `var` statements between the statements of a method body: they are the METHOD's — visible (go to
+  definition, statement-start proposals: constants and variables, not types) in that method, also above their line, and
+  in no other method of the class or of a descendant; a constant of the body may be named like a constant of the class
+  chain (the method's is nearer).  Chains start only at variables declared above them (eval types are computed
+  during the walk).
+
 Every query carries `tags`: the scenario it exercises.  Tags that name a known deviation of the
 implementation become part of the oracle signature, so that a recorded finding never hides an
 unrelated failure.
@@ -49,6 +60,11 @@ CONST_POOL = ["cMax", "cMin", "cName", "cLimit"]
 TYPE_POOL = ["tRef", "tNum", "tLink", "tOwner"]
 LOCAL_POOL = ["lTmp", "lCur", "lObj", "lIdx", "lRes"]
 PARAM_POOL = ["pArg", "pSrc", "pDst", "pN"]
+# declarations written as statements INSIDE a method body (`const`, `type`, `var` between the statements): they belong to
+# that method.  Names of their own (the same pools in every method: another method's `cStep` is another declaration)
+BODY_CONST_POOL = ["cStep", "cLocal", "cTmp"]
+BODY_TYPE_POOL = ["tLocal", "tTmp", "tHere"]
+BODY_VAR_POOL = ["lLate", "lMid", "lEnd"]
 # parameters of body-less methods (`external '…'` / `forward`) also draw from these, so that a name that
 # only such a method declares exists in most documents that have one
 BODYLESS_PARAM_POOL = ["pFreq", "pDur", "pIdx", "pHandle"]
@@ -82,6 +98,8 @@ class Decl:
         self.name, self.kind, self.owner, self.ty = name, kind, owner, ty   # ty: ('native', n) | ('class', Entity) | ('refto', Entity) | ('alias', Decl) | None
         self.sel = None   # (line, col, endcol) once rendered
         self.method = None
+        self.late = False # declared by a statement in the middle of the method body (`const` / `type` / `var`)
+        self.redecl = False   # a second declaration of a name in the same scope (the latest one counts)
         self.like = None  # "entity" | "keyword" | "method": the name is spelt like a class / module of the workspace, is a
                           # keyword the parser takes as identifier, is the name of a method of the class chain
 
@@ -117,10 +135,18 @@ class Entity:
         if key == self.name.upper() or (key == "SELF" and self.kind == "class"):
             if kinds is None or "type" in kinds:
                 return self.header
-        for d in self.members():
-            if d.key() == key and (kinds is None or d.kind in kinds):
-                return d
+        # a name declared twice in one entity (forward declaration + definition, a duplicate) is the LATEST declaration
+        for d in reversed(self.members()):
+            if d.key() == key:
+                return d if (kinds is None or d.kind in kinds) else None
         return None
+
+    def own_members(self):
+        """fields and methods of this entity, each name once: its latest declaration (declaration order)"""
+        last = {}
+        for d in self.fields + [m.decl for m in self.methods]:
+            last[d.key()] = d
+        return [d for d in self.fields + [m.decl for m in self.methods] if last[d.key()] is d]
 
 
 class Ghost:
@@ -276,6 +302,9 @@ class Gen:
             n = self.pick_name(e, CONST_POOL, "const")
             if n:
                 e.consts.append(Decl(n, "const", e, ("native", "int4")))
+        if e.consts and r.chance(1, 8):
+            # the same constant declared twice (any letter case): offered once, the later declaration is the one that counts
+            self.redeclare(e.consts, r.choice(e.consts))
         for _ in range(r.below(3)):
             n = self.pick_name(e, TYPE_POOL, "type")
             if n:
@@ -315,6 +344,48 @@ class Gen:
                 if r.chance(1, 5):
                     mm.bodyless = "external" if r.chance(1, 2) else "forward"
                 e.methods.append(mm)
+        # a method an ancestor only announces (`forward`) is defined here
+        announced = [mm.decl for a in e.chain()[1:] for mm in a.methods if mm.bodyless == "forward"
+                     and not any(x.decl.key() == mm.decl.key() for x in e.methods)
+                     and self.resolve_member(e, mm.decl.key())[:1] == [mm.decl]]
+        if announced and r.chance(1, 2):
+            a = r.choice(announced)
+            # same kind; the announced return type where its text means the same here (an alias / undeclared type name
+            # is looked up from the class that writes it)
+            ty = a.ty
+            if ty is not None and ty[0] not in ("native", "class"):
+                ty = self.pick_type(e, classes)
+                if ty[0] == "refto":
+                    ty = ("class", ty[1])
+            d = Decl(recase(r, a.name) if r.chance(1, 3) else a.name, a.kind, e, ty)
+            e.methods.insert(r.below(len(e.methods) + 1), Method(d))
+        if r.chance(1, 6):
+            # a field declared twice (the second declaration possibly with another type / in another letter case)
+            plain = [f for f in e.fields if not f.like]
+            if plain:
+                f = self.redeclare(e.fields, r.choice(plain))
+                f.ty = self.pick_type(e, classes)
+        if e.methods and r.chance(1, 3):
+            # a method announced by a forward declaration (sometimes two) and defined further down: the SAME name sits
+            # twice in the entity's table.  Kind and return type agree, the parameters are the announcement's own.
+            tgt = r.choice(e.methods)
+            for _ in range(2 if r.chance(1, 4) else 1):
+                at = r.below(e.methods.index(tgt) + 1)
+                d = Decl(recase(r, tgt.decl.name) if r.chance(1, 3) else tgt.decl.name, tgt.decl.kind, e, tgt.decl.ty)
+                d.redecl = True
+                fw = Method(d)
+                fw.bodyless = "forward"
+                e.methods.insert(at, fw)
+            tgt.decl.redecl = True
+
+    def redeclare(self, lst, d):
+        """declare `d`'s name once more in the same list, somewhere behind `d`"""
+        r = self.r
+        d2 = Decl(recase(r, d.name) if r.chance(1, 3) else d.name, d.kind, d.owner, d.ty)
+        d2.method, d2.redecl = d.method, True
+        d.redecl = True
+        lst.insert(lst.index(d) + 1 + r.below(len(lst) - lst.index(d)), d2)
+        return d2
 
     def fill_method(self, e, m, classes, mods):
         r = self.r
@@ -377,6 +448,50 @@ class Gen:
                 d.method = m
                 d.like = like[0]
                 m.locals.append(d)
+        if m.bodyless:
+            return
+        if r.chance(1, 5):
+            # a name declared twice in the method: a local declared twice, or a local named like a parameter
+            plain = [d for d in m.params + m.locals if not d.like and d not in m.untyped]
+            if plain:
+                d = r.choice(plain)
+                d2 = Decl(recase(r, d.name) if r.chance(1, 3) else d.name, "local", e, self.pick_type(e, classes, other_than=d.name))
+                d2.method, d2.redecl = m, True
+                d.redecl = True
+                lo = m.locals.index(d) + 1 if d in m.locals else 0
+                m.locals.insert(lo + r.below(len(m.locals) - lo + 1), d2)
+        # declarations written between the statements of the body: constants, types, variables of the METHOD
+        # (m.locals = all of them in textual order: the variables of the leading `var` block, then these)
+        if r.chance(1, 2):
+            for _ in range(1 + r.below(3)):
+                k = r.below(3)
+                if k == 0:
+                    pool, kind = BODY_CONST_POOL, "const"
+                    # now and then named like a constant of the class chain (same kind: the method's own one is nearer)
+                    cc = [c.name for a in e.chain() for c in a.consts]
+                    if cc and r.chance(1, 4):
+                        pool = cc
+                elif k == 1:
+                    pool, kind = BODY_TYPE_POOL, "type"
+                else:
+                    pool, kind = BODY_VAR_POOL, "local"
+                cands = [n for n in pool if n.upper() not in used]
+                if not cands:
+                    continue
+                n = r.choice(cands)
+                used.add(n.upper())
+                if kind == "const":
+                    ty = ("native", "int4")
+                elif kind == "type":
+                    j = r.below(3)
+                    ty = ("native", r.choice(NATIVES)) if j == 0 or not classes else (("class", r.choice(classes)) if j == 1 else ("refto", r.choice(classes)))
+                else:
+                    # a variable of a type the body declared before it, or of any other type
+                    lt = [x for x in m.locals if x.late and x.kind == "type"]
+                    ty = ("alias", r.choice(lt)) if lt and r.chance(1, 2) else self.pick_type(e, classes, other_than=n)
+                d = Decl(n, kind, e, ty)
+                d.method, d.late = m, True
+                m.locals.append(d)
 
     # ---- the property's rules ---------------------------------------------------------------
     NONVAR = ("const", "type", "proc", "func")
@@ -384,11 +499,14 @@ class Gen:
     def resolve_plain(self, e, m, key, novars=False):
         """[declaration] selected for a plain identifier, or [].  `novars`: the name stands in TYPE position (type
         reference): parameters, locals and fields are no candidates there — a variable is not a type"""
-        if m is not None and not novars:
+        kinds = self.NONVAR if novars else None
+        if m is not None:
+            # the latest declaration of the name in the method (parameters, `var`, and the `const` / `type` of its body)
             for d in reversed(m.params + m.locals):
                 if d.key() == key:
-                    return [d]
-        kinds = self.NONVAR if novars else None
+                    if not novars or d.kind in self.NONVAR:
+                        return [d]
+                    break
         for a in e.chain():
             d = a.find(key, kinds)
             if d is not None:
@@ -408,7 +526,7 @@ class Gen:
 
     def ghost_tags(self, e, exp):
         """scenario tags of a plain reference that the rule resolves through the uses list"""
-        if not exp or exp[0].kind in ("param", "local") or exp[0].owner in e.chain():
+        if not exp or exp[0].method is not None or exp[0].owner in e.chain():
             return set()
         seen_ghost = False
         for u in (e.uses_written or e.uses):
@@ -441,7 +559,7 @@ class Gen:
         """every declaration of member `key` along ent's chain, nearest first"""
         out = []
         for a in ent.chain():
-            for d in a.fields + [x.decl for x in a.methods]:
+            for d in a.own_members():      # a name declared twice in one entity: its latest declaration
                 if d.key() == key:
                     out.append(d)
         return out
@@ -449,7 +567,7 @@ class Gen:
     def visible_members(self, ent):
         seen, out = set(), []
         for a in ent.chain():
-            for d in a.fields + [x.decl for x in a.methods]:
+            for d in a.own_members():
                 if d.key() not in seen:
                     seen.add(d.key())
                     out.append(d.name)
@@ -461,7 +579,8 @@ class Gen:
             if d.key() in seen:
                 out = [x for x in out if x.upper() != d.key()]
             seen.add(d.key())
-            out.append(d.name)
+            if d.kind != "type":      # variables and constants are offered; a type declared in the body only hides
+                out.append(d.name)
         for a in e.chain():
             own = {}
             for d in a.members():
@@ -633,7 +752,7 @@ class Gen:
             self.cur_file = fi
             for d in e.fields + [m.decl for m in e.methods]:
                 l, c, ec = d.sel
-                self.qdef(l, c, ec - c, self.resolve_member(e, d.key()), {"own-name", "own-" + ("field" if d.kind == "field" else "method")}, "own declared name " + d.name)
+                self.qdef(l, c, ec - c, self.resolve_member(e, d.key()), {"own-name", "own-" + ("field" if d.kind == "field" else "method")} | self.decl_tags(d), "own declared name " + d.name)
 
     # ---- method bodies ---------------------------------------------------------------------------
     def render_method(self, e, m):
@@ -673,18 +792,47 @@ class Gen:
         if over:
             L.add(" " + self.kw("override"))
         L.emit()
+        # what the method's table holds while a statement is walked: a chain may only start at a variable that is
+        # declared above it (eval types are computed during the walk)
+        self.live = {id(v) for v in m.params + m.locals if not v.late}
         for v in m.locals:
-            L = self.Line(self, 3)
-            L.add(self.kw("var") + " ")
-            v.sel = (len(self.lines), L.col(), L.col() + len(v.name))
-            L.add(v.name + " : ")
-            self.type_text(L, e, m, v.ty)
-            L.emit()
+            if not v.late:
+                self.local_decl(e, m, v, start_query=False)
+        late = [v for v in m.locals if v.late]
         for _ in range(2 + r.below(5)):
+            while late and r.chance(1, 2):
+                self.local_decl(e, m, late.pop(0))
             self.statement(e, m, 3, 0)
+        while late:
+            self.local_decl(e, m, late.pop(0))
+            if late or r.chance(1, 2):
+                self.statement(e, m, 3, 0)
         if r.chance(1, 3):
             self.dangling(e, m, 3, last=True)
         self.lines.append(self.kw("endproc" if d.kind == "proc" else "endfunc"))
+
+    def local_decl(self, e, m, v, start_query=True):
+        """a `var` / `const` / `type` line of a method body"""
+        L = self.Line(self, 3)
+        if start_query:
+            self.stmt_start_query(e, m, L, {"decl-line"})
+        L.add(self.kw({"local": "var", "const": "const", "type": "type"}[v.kind]) + " ")
+        v.sel = (len(self.lines), L.col(), L.col() + len(v.name))
+        if v.kind == "const":
+            L.add(v.name + " = " + str(1 + self.r.below(90)))
+        else:
+            L.add(v.name + " : ")
+            self.type_text(L, e, m, v.ty)
+        L.emit()
+        self.live.add(id(v))
+
+    def not_yet(self, e, near):
+        """the method `near` of the class under annotation `e` is declared below the method whose body is being walked,
+        and nothing above announces it (a forward declaration of that name: same kind, same return type, stands in)"""
+        mm = self.method_of(e, near)
+        if mm is None or e.methods.index(mm) <= self.m_index:
+            return False
+        return not any(x.decl.key() == near.key() for x in e.methods[:self.m_index + 1])
 
     def shadowed(self, e, m, ent, key=None):
         """member lookups in the request's own class go through the method scope in the implementation:
@@ -702,19 +850,19 @@ class Gen:
         if e.kind == "class":
             out.append(("self", ("class", e), [e.header], {"self"}, False, set()))
         for d in m.params + m.locals:
-            if self.resolve_plain(e, m, d.key()) == [d]:
-                t = {"local"} | self.like_tags(d)
+            if d.kind in ("param", "local") and id(d) in self.live and self.resolve_plain(e, m, d.key()) == [d]:
+                t = {"local"} | self.like_tags(d) | self.decl_tags(d)
                 if any(a.find(d.key()) for a in e.chain()):
                     t.add("shadowing")
                 out.append((d.name, d.ty, [d], t, False, set()))
         for a in e.chain():
             for f in a.fields:
                 if self.resolve_plain(e, m, f.key()) == [f]:
-                    out.append((f.name, f.ty, [f], {"member" if a is e else "inherited"} | self.like_tags(f), False, set()))
+                    out.append((f.name, f.ty, [f], {"member" if a is e else "inherited"} | self.like_tags(f) | self.decl_tags(f), False, set()))
             for mm in a.methods:
                 if mm.decl.kind == "func" and self.resolve_plain(e, m, mm.decl.key()) == [mm.decl]:
-                    bad = {"forward"} if (a is e and e.methods.index(mm) > self.m_index) else set()
-                    out.append((mm.decl.name, mm.decl.ty, [mm.decl], {"member" if a is e else "inherited", "call"}, True, bad))
+                    bad = {"forward"} if (a is e and self.not_yet(e, mm.decl)) else set()
+                    out.append((mm.decl.name, mm.decl.ty, [mm.decl], {"member" if a is e else "inherited", "call"} | self.decl_tags(mm.decl), True, bad))
         for u in e.uses:
             if u.kind == "module" and self.resolve_plain(e, m, u.name.upper()) == [u.header]:
                 out.append((u.name, ("module", u), [u.header], {"module"}, False, set()))
@@ -724,6 +872,15 @@ class Gen:
 
     def like_tags(self, d):
         return {self.LIKE_TAGS[d.like]} if getattr(d, "like", None) else set()
+
+    def decl_tags(self, d):
+        """scenario tags of a reference that the rule resolves to `d`"""
+        t = set()
+        if d.redecl:
+            t.add("redeclared")          # the name is declared more than once in that scope: `d` is the latest
+        if d.late:
+            t.add("body-decl")           # declared by a statement inside the method body
+        return t
 
     def classless_starts(self, e, m):
         """first elements of a chain that have no class at all: names nothing declares (also keywords used as
@@ -737,8 +894,8 @@ class Gen:
             for mm in a.methods:
                 if mm.decl.kind == "proc" and self.resolve_plain(e, m, mm.decl.key()) == [mm.decl]:
                     # declared further down in the class under annotation: not in its table yet when the call is typed
-                    bad = {"forward"} if (a is e and e.methods.index(mm) > self.m_index) else set()
-                    out.append((mm.decl.name, None, [mm.decl], {"member" if a is e else "inherited", "call", "proc-result"}, True, bad))
+                    bad = {"forward"} if (a is e and self.not_yet(e, mm.decl)) else set()
+                    out.append((mm.decl.name, None, [mm.decl], {"member" if a is e else "inherited", "call", "proc-result"} | self.decl_tags(mm.decl), True, bad))
         for n in INTRINSICS:
             if not self.resolve_plain(e, m, n.upper()) and not self.uses_member_hit(e, m, n.upper()):
                 out.append((n, None, [], {"intrinsic", "call", "unresolvable"}, True, set()))
@@ -807,8 +964,9 @@ class Gen:
             bad.add("shadow-self")
         # the class under annotation shows only the methods declared so far, also to lookups that
         # reach it through a descendant's chain
-        if near.kind in ("func", "proc") and near.owner is e and e.methods.index(self.method_of(e, near)) > self.m_index:
+        if near.kind in ("func", "proc") and near.owner is e and self.not_yet(e, near):
             bad.add("forward")
+        t |= self.decl_tags(near)
         if call and prev["ty"][0] == "module":
             bad.add("modcall")
         nty = near.ty if near.kind in ("field", "func") else None
@@ -900,6 +1058,8 @@ class Gen:
             tags.add("unknown-operand")
         if ent is not None and self.shadowed(e, m, ent):
             tags.add("shadow-self")
+        if ent is not None and any(d.redecl for a in ent.chain() for d in a.fields + [x.decl for x in a.methods]):
+            tags.add("redeclared-member")      # a member name sits twice in a table of the operand's chain
         if any(t in self.DEVS and t not in self.dev for t in tags):
             return
         col = L.col()
@@ -926,6 +1086,11 @@ class Gen:
             tags = {"bodyless-param"}
         elif special and r.chance(1, 4):
             name = r.choice(special)
+        elif self.other_method_names(e, m) and r.chance(1, 5):
+            # a constant / type / variable that ANOTHER method of the class chain declares in its body, or declares twice:
+            # it is that method's (resolves here only when this method, the class chain or a used entity declares the name too)
+            name = r.choice(self.other_method_names(e, m))
+            tags = {"other-method-decl"}
         elif r.chance(1, 12):
             # the name of a class / module: the entity when it is an ancestor or used and no variable hides it
             name = r.choice(self.entities).name
@@ -961,13 +1126,16 @@ class Gen:
             tags.add("recased")
         L.pending.append(lambda ln, col=col, n=len(txt), exp=exp, tags=tags, name=name: self.qdef(ln, col, n, exp, tags, "plain identifier " + name))
 
+    def other_method_names(self, e, m):
+        return [d.name for a in e.chain() for mm in a.methods if mm is not m for d in mm.locals if d.late or d.redecl]
+
     def plain_tags(self, e, m, name, exp):
         """scenario tags of a plain reference `name` that the rule resolves to `exp`"""
         if not exp:
             return {"unresolvable"}
         d = exp[0]
-        t = self.like_tags(d)
-        if d.kind in ("param", "local"):
+        t = self.like_tags(d) | self.decl_tags(d)
+        if d.method is not None:
             t.add("local")
             if any(a.find(name.upper()) for a in e.chain()):
                 t.add("shadowing")
@@ -977,10 +1145,17 @@ class Gen:
             t.add("member" if d.owner is e else "inherited")
         return t
 
-    def stmt_start_query(self, e, m, L):
+    def stmt_start_query(self, e, m, L, tags=()):
         col = L.col()
         exp = self.visible_plain(e, m)
-        L.pending.append(lambda ln, col=col, exp=exp: self.q("c", ln, col, exp, {"stmt-start"}, "statement start"))
+        tags = {"stmt-start"} | set(tags)
+        if any(d.redecl for d in m.params + m.locals) or any(d.redecl for a in e.chain() for d in a.consts):
+            tags.add("redeclared-name")        # a parameter / local / constant declared twice is in sight
+        if any(d.late for d in m.locals):
+            tags.add("body-decl")
+        if any(d.late for a in e.chain() for mm in a.methods if mm is not m for d in mm.locals):
+            tags.add("other-method-body-decl") # another method of the class chain declares names in its body
+        L.pending.append(lambda ln, col=col, exp=exp, tags=tags: self.q("c", ln, col, exp, tags, "statement start"))
 
     def statement(self, e, m, indent, depth, force=None, start_query=True):
         r = self.r
@@ -1041,6 +1216,10 @@ class Gen:
             pre = (r.choice(vis)[:1 + r.below(3)] if vis and r.chance(3, 4) else "zq")
             if pre.upper() in [v.upper() for v in vis]:
                 pre = pre + "Zq"
+            if pre.upper() in ("IN", "IS", "OR", "AND", "NOT", "TO", "AS", "IF", "OF", "ON") or pre.lower() in KEYWORDS:
+                # `x.In` (of `Init`) is `x.` + the OPERATOR `in`: the following line would become its right operand (a `type`
+                # declaration on it — `type` is also an identifier — was swallowed: thorough tier, w1638)
+                pre = pre[:1]
             self.dot_query(L, e, m, elems[-1], {"partial"}, width=len(pre))
             col = L.col()
             L.add(pre)
